@@ -79,14 +79,14 @@ func checkC13(c *Ctx) {
 		where := p.Pos(f.Pos())
 		imps := p.ErrorImpurities(f, gw)
 		if len(imps) == 0 {
-			c.Ok("R1", f.Name()+":pure-on-error", where, "no hand-state mutation on any path to an error exit")
+			c.Ok("R1", fnName(f)+":pure-on-error", where, "no hand-state mutation on any path to an error exit")
 		}
 		for _, im := range imps {
 			if im.Mut == nil {
-				c.Undecided("R1", f.Name()+":pure-on-error", where, "path enumeration aborted")
+				c.Undecided("R1", fnName(f)+":pure-on-error", where, "path enumeration aborted")
 				continue
 			}
-			c.Bad("R1", f.Name()+":pure-on-error", p.InstrPos(im.Mut), fmt.Sprintf("hand state is modified (%s) on a path to the error exit at %s", instrText(p, im.Mut), p.InstrPos(im.Exit)), "path "+p.TrailString(f, im.Trail))
+			c.Bad("R1", fnName(f)+":pure-on-error", p.InstrPos(im.Mut), fmt.Sprintf("hand state is modified (%s) on a path to the error exit at %s", instrText(p, im.Mut), p.InstrPos(im.Exit)), "path "+p.TrailString(f, im.Trail))
 		}
 		// error exits return the stored state
 		if f.Signature.Results().Len() != 2 {
@@ -94,7 +94,7 @@ func checkC13(c *Ctx) {
 		}
 		_, _, _, errRets, ab := p.ExitsWithGuards(f)
 		if ab {
-			c.Undecided("R1", f.Name()+":error-returns-stored-state", where, "path enumeration aborted")
+			c.Undecided("R1", fnName(f)+":error-returns-stored-state", where, "path enumeration aborted")
 			continue
 		}
 		ok := true
@@ -105,7 +105,7 @@ func checkC13(c *Ctx) {
 				ok, d = false, fmt.Sprintf("error exit at %s returns %s, not the stored hand state", p.InstrPos(r), s)
 			}
 		}
-		c.Check(ok, "R1", f.Name()+":error-returns-stored-state", where, fmt.Sprintf("%d error exit(s) return the stored state", len(errRets)), d)
+		c.Check(ok, "R1", fnName(f)+":error-returns-stored-state", where, fmt.Sprintf("%d error exit(s) return the stored state", len(errRets)), d)
 	}
 	c.Min("R1", "hand methods with an error result", n, 14)
 
@@ -230,12 +230,12 @@ func checkEngineEffectsOnSuccess(c *Ctx, rule string) {
 				n++
 				if !nilGuard(p.Guards(in), true, func(s *Sym) bool { return s.V == errV }) {
 					bad++
-					c.Bad(rule, f.Name()+":effect", p.InstrPos(in), "table effect not control-dependent on the hand call's success: "+instrText(p, in))
+					c.Bad(rule, fnName(f)+":effect", p.InstrPos(in), "table effect not control-dependent on the hand call's success: "+instrText(p, in))
 				}
 			}
 		}
 		if bad == 0 {
-			c.Ok(rule, f.Name()+":effects", p.Pos(f.Pos()), fmt.Sprintf("%d effect(s) only on success", n))
+			c.Ok(rule, fnName(f)+":effects", p.Pos(f.Pos()), fmt.Sprintf("%d effect(s) only on success", n))
 		}
 	}
 }
@@ -417,8 +417,8 @@ func checkC13Wiring(c *Ctx) {
 					}
 				}
 			}
-			key := "step-error-reported:" + f.Name() + ":" + sc.Name()
-			if f.Name() == "PlayerJoin" || sc.Name() == "PlayerJoin" {
+			key := "step-error-reported:" + fnName(f) + ":" + fnName(sc)
+			if fnName(f) == "PlayerJoin" || fnName(sc) == "PlayerJoin" {
 				continue
 			}
 			c.Check(reported, "R3", key, p.InstrPos(call), "failure of an engine-driven step is reported", "failure of an engine-driven step is dropped")
@@ -505,7 +505,7 @@ func checkNativeBackend(c *Ctx) {
 					}
 				}
 			}
-			c.Check(okIn, "R5", bt.Obj().Name()+"."+name+":clone-in", where, "operates on clone(arg)", "the backend does not operate on a clone of the caller's state "+d)
+			c.Check(okIn, "R5", canonTypeName(bt.Obj())+"."+name+":clone-in", where, "operates on clone(arg)", "the backend does not operate on a clone of the caller's state "+d)
 			wk := &Walker{P: p, Fn: f, OnExit: func(in ssa.Instruction, st *WState) {
 				r, ok := in.(*ssa.Return)
 				if !ok {
@@ -543,9 +543,9 @@ func checkNativeBackend(c *Ctx) {
 				}
 			}}
 			wk.Run()
-			c.Check(okOut && !wk.Aborted, "R5", bt.Obj().Name()+"."+name+":clone-out", where, "returns clone on success, nil on error", d)
+			c.Check(okOut && !wk.Aborted, "R5", canonTypeName(bt.Obj())+"."+name+":clone-out", where, "returns clone on success, nil on error", d)
 		}
-		c.Min("R5", "state-taking methods of "+bt.Obj().Name(), nm, 12)
+		c.Min("R5", "state-taking methods of "+canonTypeName(bt.Obj()), nm, 12)
 	}
 	// the hand stores a private copy of every state it is given
 	gt := p.singleImpl("", "Game")
